@@ -176,7 +176,13 @@ func (s *c16Svc) Get(ctx context.Context, name string) (*api.SecretValue, error)
 		return &api.SecretValue{Value: c16Value(name, sv.tok), Version: api.SecretVersion(sv.ver)}, nil
 	}
 	if !s.logging {
+		n := s.nget
 		s.mu.Unlock()
+		if n > 50 {
+			// an implementation that keeps asking is no longer answered, so that virtual time can advance
+			<-ctx.Done()
+			return nil, ctx.Err()
+		}
 		return nil, api.ErrNotFound
 	}
 	owner := -1
@@ -262,7 +268,9 @@ func c16Policy(t *testing.T, in c16Input) Record {
 			return
 		}
 		defer st.Close()
+		svc.mu.Lock()
 		before := svc.nget
+		svc.mu.Unlock()
 		func() {
 			defer func() {
 				if r := recover(); r != nil {
@@ -279,7 +287,9 @@ func c16Policy(t *testing.T, in c16Input) Record {
 				cls, tok = 0, tk
 			}
 		}()
+		svc.mu.Lock()
 		nreq = svc.nget - before
+		svc.mu.Unlock()
 		if cls == 0 && nreq > 0 {
 			cls = 4
 		}
